@@ -254,6 +254,38 @@ CLAIMED = {
              "limit. Oracle: every rank terminates (watchdog otherwise), each instance runs once on the rank the placement names, every input "
              "value and the final collection contents equal the reference, which does not depend on P or the message path.",
         design_ref="5/C05"),
+    "C19": dict(
+        engine="rc+exhaustive",
+        technique="exhaustive enumeration of (m, n, ld, uplo, diag, resized) plus rapidcheck, with an MPI_Pack oracle on an index-valued buffer",
+        text="Every datatype parsec_matrix_define_datatype builds for m,n <= 12, ld <= m+3, full/upper/lower, with and without diagonal, both "
+             "resize modes and two element types (13,824 cases, enumerated) plus random cases up to 200 is packed from a buffer holding its own "
+             "linear indices. Oracle: the packed index list equals the mathematical region in column-major order; lb, extent and true extent "
+             "cover the tile; unpacking writes only the region.",
+        design_ref="5/C19"),
+    "C20": dict(
+        engine="rc+exhaustive",
+        technique="all-rank-view model check of the data distributions (2D block-cyclic with k-cyclicity and offsets, k-view, symmetric, band, tabular, vector): rapidcheck over parameters plus complete small boxes",
+        text="Each descriptor is constructed once per rank of grids up to 16 ranks. Oracle for every tile of the (sub)matrix: rank_of is identical "
+             "in every rank's view and valid; on the owner data_of returns distinct parsec_data_t whose memory lies inside the rank's storage and "
+             "does not overlap; local tile count is within nb_local_tiles; data_key / rank_of_key / data_of_key / key_to_string round-trip; "
+             "vpid_of is in range (nb_vp 1..6).",
+        design_ref="5/C20"),
+    "C38": dict(
+        engine="hypothesis+subprocess(E9)",
+        technique="precedence-model test of MCA parameter resolution: one process per Hypothesis-generated combination of default / override / --mca / environment / synonyms / parameter files",
+        text="A C driver registers generated parameters (int, size_t, string; synonyms, deprecated or not), applies generated overrides, command "
+             "lines, environment variables and parameter files with distinct values per source, and prints effective values and sources. Oracle: "
+             "override > (--mca | environment) > file > default; when --mca and environment are both present either is accepted (labelled); "
+             "repeated --mca values are joined with commas; ~/ expansion for strings.",
+        design_ref="5/C38"),
+    "C40": dict(
+        engine="hypothesis+subprocess(E9)+fuzz",
+        technique="model-based subprocess test of virtual-process maps under random taskset masks (flat, hwloc, rr, file, display, malformed) plus in-process libFuzzer on the map parsers",
+        text="Each case runs parsec_init with a generated runtime_vpmap specification (valid ones built from a model, malformed ones by mutation) "
+             "under a generated CPU mask and prints VP count, threads per VP, recorded and OS-level bindings. Oracle: counts equal the model, "
+             "every thread's affinity lies inside the process's allowed set, malformed specifications fall back or stop with a diagnostic; "
+             "signals and sanitizer reports are violations.",
+        design_ref="5/C40"),
     "C23": dict(
         engine="ptg(E5)+hypothesis",
         technique="generated parameter spaces; key distinctness and key_print round-trip oracle on the generated make_key/key_print",
